@@ -30,12 +30,18 @@ from .. import tlc
 PID = "G01"
 GEN = os.path.join(SPEC, "gen", "g01")
 
+# TRUE: the specification models HandleTaskExit's second emission as the code has it (named deviation ExitInfoClobber: it says
+# engineExitReason None / engineExitCode <task code> after the exit).  Set to "FALSE" once /repo is repaired
+# (out/proposed_fixes/G01_exit_info_clobbers_exit_reason.diff); the expected counterexample of ReasonNeverClobbered then goes away too.
+CLOBBER = "TRUE"
+
 REASONS_Q = ["Success", "KnownIssue", "ResourceExhausted", "Killed", "SubmissionFailed"]
 REASONS_T = ["Success", "KnownIssue", "ResourceExhausted", "Killed", "SubmissionFailed", "Cancelled", "SystemIssue", "UnknownIssue"]
 KINDS = ["ok", "oserror", "launcherror", "exception"]
 
 INVARIANTS = ["TypeOK", "TaskInsideExecution", "ShutdownIsFinal", "OneLaunchPerRun", "CompleteOnlyAfterShutdown"]
 PROPS = ["ShutAbsorbing", "ReasonStable", "NoLaunchAfterGateClosed", "CompletedIsFinal"]
+ONE_RUN_PROPS = ["KillAlwaysHeard"]     # hold as long as the engine is not restarted
 FIFO_PROPS = ["FirstDeadCarriesReason", "NoResurrection"]
 ACTIONS = ["Run", "Kill", "Fire", "TaskExit", "Restart", "Shutdown", "Tick", "DeliverInit", "ArmLaunch", "DeliverGate", "Launch",
            "WaitStep", "TermSubscribe", "DeliverTerm", "DeliverStale", "HandleKilled", "Enter", "Filter", "Out"]
@@ -48,7 +54,7 @@ def tla_set(xs):
 def cfg(name, consts, body):
     os.makedirs(GEN, exist_ok=True)
     c = dict(Reasons=tla_set(REASONS_Q), Kinds=tla_set(KINDS), Order='"any"', Quiet="FALSE", Emit="FALSE", MaxEnv=0, MaxKill=1,
-             MaxTick=0, MaxRun=1, MaxSnaps=3)
+             MaxTick=0, MaxRun=1, MaxSnaps=3, Clobber=CLOBBER)
     c.update(consts)
     path = os.path.join(GEN, name + ".cfg")
     with open(path, "w") as f:
@@ -79,16 +85,19 @@ def model_check(chk, tier):
     S3, K2 = tla_set(["Success", "ResourceExhausted", "Killed"]), tla_set(["ok", "oserror"])
     inv = "SPECIFICATION Spec\nCONSTRAINT Bound\n" + "".join("INVARIANT %s\n" % i for i in INVARIANTS) + "".join("PROPERTY %s\n" % p for p in PROPS)
     jobs = []      # (kind, name, consts, body, property expected to fail | None, coverage)
-    jobs.append(("cover", "cover", dict(MaxTick=1, MaxRun=2, MaxSnaps=2, Reasons=tla_set(["ResourceExhausted", "Killed"]), Kinds=tla_set(["ok"])), inv, None, True))
+    jobs.append(("cover", "cover", dict(MaxTick=1, MaxRun=2, MaxSnaps=2, Reasons=tla_set(["ResourceExhausted"]), Kinds=tla_set(["ok"])), inv, None, True))
     grid = [dict(MaxTick=0, MaxRun=2, MaxSnaps=2), dict(MaxTick=1, MaxRun=1, MaxSnaps=2), dict(MaxTick=0, MaxRun=1, MaxSnaps=3, MaxKill=2, Reasons=S3, Kinds=K2)]
     if thorough:
-        grid += [dict(MaxTick=0, MaxRun=1, MaxSnaps=3, MaxKill=2), dict(MaxTick=1, MaxRun=2, MaxSnaps=3, Reasons=S3, Kinds=K2),
-                 dict(MaxTick=0, MaxRun=3, MaxSnaps=2, MaxKill=2, Reasons=S3, Kinds=K2)]
+        S2, K1 = tla_set(["ResourceExhausted", "Killed"]), tla_set(["ok"])
+        grid = [dict(MaxTick=0, MaxRun=2, MaxSnaps=3, Reasons=S2, Kinds=K1)] + grid       # the largest first
+        grid += [dict(MaxTick=0, MaxRun=1, MaxSnaps=3, MaxKill=2), dict(MaxTick=1, MaxRun=2, MaxSnaps=2, Reasons=S3, Kinds=K2),
+                 dict(MaxTick=0, MaxRun=3, MaxSnaps=2, MaxKill=2, Reasons=S2, Kinds=K1)]
     for i, g in enumerate(grid):
         jobs.append(("hold", "fine%d" % i, g, inv, None, False))
     # the stream properties hold when snapshots keep their order and no clock tick slips in between (a tick reads a fresh
     # stateDictionary straight into the FIFO part and so overtakes every snapshot still in its trigger-pool hop)
     jobs.append(("hold", "fifo", dict(Order='"fifo"', MaxTick=0, MaxRun=2, MaxSnaps=3), inv + "".join("PROPERTY %s\n" % p for p in FIFO_PROPS), None, False))
+    jobs.append(("hold", "onerun", dict(MaxTick=0, MaxRun=1, MaxSnaps=2, MaxKill=2), inv + "".join("PROPERTY %s\n" % p for p in ONE_RUN_PROPS), None, False))
     # liveness under fairness
     jobs.append(("hold", "live", dict(MaxTick=0, MaxRun=2 if thorough else 1, MaxSnaps=2, Reasons=S3, Kinds=K2),
                  "SPECIFICATION FairSpec\nCONSTRAINT Bound\nPROPERTY KillLeadsToDead\nPROPERTY ShutdownLeadsToCompletion\nPROPERTY DeadEventuallyKnown\n", None, False))
@@ -101,7 +110,11 @@ def model_check(chk, tier):
             ("ReasonNeverClobbered", dict(Order='"fifo"', MaxTick=0, MaxRun=1, MaxSnaps=3), "ExitInfoClobber"),
             ("FirstDeadCarriesReason", dict(Order='"any"', MaxTick=0, MaxRun=1, MaxSnaps=3), "SnapshotOvertaking/first-dead-without-reason"),
             ("NoResurrection", dict(Order='"any"', MaxTick=0, MaxRun=1, MaxSnaps=3), "SnapshotOvertaking/alive-after-dead"),
-            ("NoResurrection", dict(Order='"fifo"', MaxTick=1, MaxRun=1, MaxSnaps=3), "ClockTickOvertakesSnapshot/alive-after-dead")):
+            ("NoResurrection", dict(Order='"fifo"', MaxTick=1, MaxRun=1, MaxSnaps=3), "ClockTickOvertakesSnapshot/alive-after-dead"),
+            ("KillAlwaysHeard", dict(Order='"fifo"', MaxTick=0, MaxRun=2, MaxSnaps=2, MaxKill=2, Reasons=S3, Kinds=K2), "StaleInitCompletion/kill-lost-after-restart")):
+        if name == "ExitInfoClobber" and CLOBBER != "TRUE":
+            jobs.append(("hold", "noclobber", consts, "SPECIFICATION Spec\nCONSTRAINT Bound\nPROPERTY %s\n" % prop, None, False))
+            continue
         jobs.append(("deviation", name, consts, "SPECIFICATION Spec\nCONSTRAINT Bound\nPROPERTY %s\n" % prop, prop, False))
 
     def one(job):
@@ -179,7 +192,7 @@ def _job(scratch):
 
 
 def action_class(a):
-    return a.split(":")[0] if a.startswith("Exit") else a
+    return a.split(":")[0]
 
 
 def replay_case(case, scratch):
@@ -201,6 +214,8 @@ def replay_case(case, scratch):
             det = "; ".join("%s: engine %s, specification %s" % (k, json.dumps(a.get(k), sort_keys=True), json.dumps(b.get(k), sort_keys=True)) for k in fields)
             return ("replay:%s:%s:%s" % (case["order"], action_class(labels[i]), "+".join(fields)),
                     "after %s (step %d of %s, snapshots %s): %s" % (labels[i], i, case["hist"], case["order"], det[:1500]))
+    if d.not_enabled:
+        return ("replay:%s:%s:not-enabled" % (case["order"], action_class(case["hist"][d.pos - 1])), "%s: %s" % (case["hist"], d.not_enabled))
     if len(obs) != len(want):
         return ("replay:%s:length" % case["order"], "%s: %d observations, specification %d (item errors %s)" % (case["hist"], len(obs), len(want), d.item_errors))
     if d.item_errors:
@@ -332,7 +347,7 @@ def validate_traces(chk, tag, runs, batch=250):
             f.write("---- MODULE EngineTraceData ----\nEXTENDS TLC\nTraces == <<\n  %s\n>>\n====\n" % ",\n  ".join(
                 "<<" + ",\n    ".join(tla_step(s) for s in tr) + ">>" for _sd, tr in chunk))
         body = ("CONSTANTS\n  Reasons = %s\n  Kinds = %s\n  Order = \"any\"\n  Quiet = FALSE\n  Emit = FALSE\n  MaxEnv = 0\n  MaxKill = 99\n  MaxTick = 99\n"
-                "  MaxRun = 99\n  MaxSnaps = 12\nSPECIFICATION TraceSpec\nCONSTRAINT Furthest\nPOSTCONDITION AllAccepted\nCHECK_DEADLOCK FALSE\n" % (tla_set(REASONS_T), tla_set(KINDS)))
+                "  MaxRun = 99\n  MaxSnaps = 12\n  Clobber = %s\nSPECIFICATION TraceSpec\nCONSTRAINT Furthest\nPOSTCONDITION AllAccepted\nCHECK_DEADLOCK FALSE\n" % (tla_set(REASONS_T), tla_set(KINDS), CLOBBER))
         c = os.path.join(d, "trace.cfg")
         with open(c, "w") as f:
             f.write(body)
@@ -440,6 +455,8 @@ def contract_case(case, scratch):
             robs = d.replay(hist, "fifo")
         except G.HarnessDrift as e:
             return [("MACHINERY", "harness drift on %s: %s" % (hist, e))]
+    if d.not_enabled:
+        return []          # the engine could not follow the specification: reported by the replay part
     real_updates = d.all_updates
     # the same environment on the FakeEngine
     fw = W.World()
@@ -466,16 +483,20 @@ def contract_case(case, scratch):
         if o is None:
             break
         rc = "-"
-        if a == "Run":
-            fe.run()
-        elif a == "Kill":
-            fe.kill()
-        elif a.startswith("FireKL:"):
-            fe.kill()
-        elif a == "Restart":
-            rc = fe.restart()
-        elif a == "Shutdown":
-            fe.shutdown()
+        try:
+            if a == "Run":
+                fe.run()
+            elif a == "Kill":
+                fe.kill()
+            elif a.startswith("FireKL:"):
+                fe.kill()
+            elif a == "Restart":
+                rc = fe.restart()        # the REAL Engine.restart, inherited by the fake
+            elif a == "Shutdown":
+                fe.shutdown()
+        except Exception as e:           # noqa: the real restart() needs something the fake does not provide
+            out.append(("fake-engine-cannot-follow-%s" % action_class(a), "%s step %d (%s): FakeEngine raised %r" % (hist, i + 1, a, e)))
+            return out
         if prev_reason == "none" and o["reason"] != "none" or (a == "Restart" and False):
             fe.env_exit(o["reason"])      # the fake's environment delivers the exit the real engine went through
         drain()
